@@ -91,7 +91,7 @@ def f_dangle(pkg, rng):
     if not srcs:
         return None
     s = rng.choice(srcs)
-    pkg["rels"][s] = pkg["rels"][s] + [("rId%d" % (900 + rng.randint(0, 99)), "http://example.com/rel/x", rng.choice(["NULL", "../nothing/here.xml", "/ppt/slides/NULL"]), False)]
+    pkg["rels"][s] = pkg["rels"][s] + [("rId%d" % (900 + rng.randint(0, 99)), "http://example.com/rel/x", rng.choice(["NULL", "../nothing/here.xml", "/ppt/slides/NULL", "", "", ".", "missing/"]), False)]   # a voided target: a name, a path, or nothing at all
     return f"dangle@{s}"
 
 
